@@ -356,6 +356,19 @@ class SymEval:
             if isinstance(tgt.value, ast.Name) and base[0] == "dict":
                 items = [(k, x) for k, x in base[1] if k != key] + [(key, v)]
                 frame.env[tgt.value.id] = ("dict", tuple(items))
+            else:
+                # a table built by a comprehension and written to afterwards is no longer what the comprehension says: later reads of it are
+                # reads of the updated table, not of the comprehension's entries
+                root, depth_ = tgt.value, 1
+                while isinstance(root, ast.Subscript):
+                    root, depth_ = root.value, depth_ + 1
+                if isinstance(root, ast.Name) and depth_ >= 2:  # (an entry of an entry: table[a][b] = v)
+                    old = frame.lookup(root.id)
+                    if old is not None and old[0] == "comp" and old[1] == "dict":
+                        f_ = frame
+                        while f_ is not None and root.id not in f_.env:
+                            f_ = f_.parent
+                        (f_ or frame).env[root.id] = T.mk_call("updated", [old])
         elif isinstance(tgt, ast.Starred):
             self.assign(tgt.value, v, frame, st)
         else:
@@ -2264,10 +2277,15 @@ def _index_loop_as_zip(st: ast.For, frame=None, ev=None):
         seqs = [len_of(x) for x in a.args]
     else:
         return None
-    if not all(isinstance(x, (ast.Name, ast.Attribute)) for x in seqs):
+    def indexed_as(x):
+        # what the body subscripts with i for this sequence: the sequence itself, or - for a prefix slice X[:k] - X (same items below the bound)
+        if isinstance(x, ast.Subscript) and isinstance(x.slice, ast.Slice) and x.slice.lower is None and x.slice.step is None and isinstance(x.value, (ast.Name, ast.Attribute)):
+            return x.value
+        return x if isinstance(x, (ast.Name, ast.Attribute)) else None
+    if not all(indexed_as(x) is not None for x in seqs):
         return None
     i = st.target.id
-    dumps = [ast.dump(x) for x in seqs]
+    dumps = [ast.dump(indexed_as(x)) for x in seqs]
     if len(set(dumps)) != len(dumps):
         return None
     import copy
